@@ -22,6 +22,8 @@ func c03(c *eng.Ctx, r *eng.Report) {
 		"R3.5 state commit then node-database commit, both error-checked, before success is reported and before the head moves (shared with C05 R5.4); " +
 		"R3.6 errors of batch writes and commits are consumed at every call site; R3.8 an entry leaves an account's flush set (dirtyStorage) only in updateTrie, as it is written to the storage trie; R3.7 the flag that makes Commit write an account's code blob is raised unconditionally (constant true) by every function that installs code bytes, lowered only in Commit after InsertBlob of those bytes, and never computed. " +
 		"R3.10 a node leaves the dirty-node cache only for a stated reason: uncache deletes the very key it was called with (the committed root, and its children by recursion over childs()), Cap deletes the oldest flush-list entry after having put it into the batch, dereference deletes a child whose reference count dropped to zero — no other function deletes from NodeDatabase.nodes, so nodes of a state that is committed to memory but not yet flushed cannot be dropped by flushing another one; " +
+		"R3.16 Commit looks at every cached account object: each return of the callback AccountDB.Commit hands to accountObjects.Range is the constant true, except where the callback has just handed Commit an error to return — a silent `return false` (for an object already flagged deleted, say) ends the whole iteration, and the dirty accounts the sync.Map had not reached yet never have their storage trie committed although Commit and TrieDB().Commit report success; " +
+		"R3.17 a commit writes through a batch of its own: the batch NodeDatabase.Commit fills and writes is the result of NewBatch() in that call — Commit runs under the read lock, so two commits (main chain and a fork) overlap, and a batch kept on the struct is reset or refilled by the second while the first is still writing: the first reports success for a root that was never written; " +
 		"R3.15 a reference is recorded per parent: NodeDatabase.reference skips the increment only when the child is not cached or when this parent's children map already holds the child — never because the child has some other parent; an account leaf that shares its storage root or code with a leftover, unflushed account would otherwise hold no reference of its own, and Commit(root) reports success without writing that storage trie or code; " +
 		"R3.14 every dirty slot reaches the storage trie: in accountObject.updateTrie each iteration over dirtyStorage passes a TryUpdate or a TryDelete on the storage trie before the next one starts (no `continue` that skips both) — a slot skipped because it equals some remembered earlier value keeps whatever an intermediate flush wrote: the committed root then holds another value than the one read before the commit; " +
 		"R3.13 the account trie is committed once per block, by AccountDB.Commit, with the leaf callback that links each account's storage root and code to its leaf: every Commit call on AccountDB.trie sits in (*AccountDB).Commit and passes a non-nil callback — a commit without it (from IntermediateRoot, say) leaves the nodes clean, the later Commit never sees the leaves, and TrieDB().Commit(root) writes an account trie whose storage roots and code are not on disk; " +
@@ -45,6 +47,8 @@ func c03(c *eng.Ctx, r *eng.Report) {
 	c03AccountTrieCommit(c, r)
 	c03EveryDirtySlotFlushed(c, r)
 	c03ReferencePerParent(c, r)
+	c03CommitVisitsEveryObject(c, r)
+	c03CommitBatchIsItsOwn(c, r)
 }
 
 func batchCalls(fn *ssa.Function, method string) []*ssa.Call {
@@ -818,4 +822,80 @@ func c03ReferencePerParent(c *eng.Ctx, r *eng.Report) {
 		}
 	}
 	r.Check(bad == "" && n >= 1, rule, "reference:per-parent", c.Pos(fn.Pos()), fmt.Sprintf("%d early return(s), each for an uncached child or a reference this parent already holds", n), "NodeDatabase.reference returns at "+bad+" without counting the reference although neither the child is uncached nor this parent already references it: a child that merely has another parent gets no reference from this one — when two accounts share a storage root or code and the first was left unflushed, Commit(root) of the second writes the account trie only and reports success; the root on disk is not resolvable")
+}
+
+// c03CommitVisitsEveryObject: see R3.16.
+func c03CommitVisitsEveryObject(c *eng.Ctx, r *eng.Report) {
+	const rule = "R3.16"
+	r.Min(rule, 1)
+	commit := c.Func(acctPkg, "(*AccountDB).Commit")
+	if !r.Anchor(commit != nil, rule, "(*AccountDB).Commit") {
+		return
+	}
+	n := 0
+	for _, s := range eng.Sites(commit) {
+		if s.Name() != "(*sync.Map).Range" {
+			continue
+		}
+		mc, ok := s.Common().Args[1].(*ssa.MakeClosure)
+		if !ok {
+			continue
+		}
+		cb := mc.Fn.(*ssa.Function)
+		n++
+		bad := ""
+		for _, re := range eng.Returns(cb) {
+			if k, isK := re.Incoming(0).(*ssa.Const); isK && k.Value != nil && k.Value.String() == "true" {
+				continue
+			}
+			// stopping is fine when the stop is reported: the callback has handed an error to Commit (a store
+			// through a captured variable dominates the return) and Commit returns it
+			reported := false
+			for _, b := range cb.Blocks {
+				for _, in := range b.Instrs {
+					st, isSt := in.(*ssa.Store)
+					if !isSt {
+						continue
+					}
+					root := st.Addr
+					if u, isU := root.(*ssa.UnOp); isU {
+						root = u.X
+					}
+					if _, isFV := root.(*ssa.FreeVar); isFV && eng.Dominates(in, re.Ret) {
+						reported = true
+					}
+				}
+			}
+			if !reported {
+				bad = c.Pos(re.Ret.Pos())
+			}
+		}
+		r.Check(bad == "", rule, "commit-range:continues", c.Pos(cb.Pos()), "the Range callback returns true on every path (or reports an error to Commit first)", "the callback AccountDB.Commit passes to accountObjects.Range can return something other than true (at "+bad+"): sync.Map.Range stops at the first false, so the objects it had not visited yet — dirty accounts with changed storage — are never committed into the node database; Commit and NodeDatabase.Commit still report success with the expected root, and after a cold reopen their storage is missing")
+	}
+	if n == 0 {
+		r.Fail(rule, "commit-range:none", c.Pos(commit.Pos()), "AccountDB.Commit no longer ranges over accountObjects with a closure: the rule has lost its anchor")
+	}
+}
+
+// c03CommitBatchIsItsOwn: see R3.17.
+func c03CommitBatchIsItsOwn(c *eng.Ctx, r *eng.Report) {
+	const rule = "R3.17"
+	r.Min(rule, 1)
+	fn := c.Func(triePkg, "(*NodeDatabase).Commit")
+	if !r.Anchor(fn != nil, rule, "(*NodeDatabase).Commit") {
+		return
+	}
+	n := 0
+	for _, s := range eng.Sites(fn) {
+		if !s.Common().IsInvoke() || s.Common().Method.Name() != "Write" || !strings.Contains(s.Common().Value.Type().String(), "Batch") {
+			continue
+		}
+		n++
+		call, isCall := eng.ResolveLocal(s.Common().Value).(*ssa.Call)
+		fresh := isCall && strings.HasSuffix(eng.CallName(&call.Call), ".NewBatch")
+		r.Check(fresh, rule, fmt.Sprintf("commit-batch:own#%d", n-1), c.Pos(s.Pos()), "the batch written is NewBatch() of this call", "NodeDatabase.Commit writes "+eng.Desc(s.Common().Value)+", a batch that outlives the call: Commit holds only the read lock, so an overlapping commit of another root resets or refills it — the first commit then writes the other's entries, sees no error, uncaches its trie and reports success for a root that is not on disk")
+	}
+	if n == 0 {
+		r.Fail(rule, "commit-batch:none", c.Pos(fn.Pos()), "no batch.Write in NodeDatabase.Commit: the rule has lost its anchor")
+	}
 }
